@@ -69,6 +69,23 @@ newline merges paragraphs; that shows as ``paragraph-count-differs/assembled-by=
 exactly one newline is ESTABLISHED per part (``asm:part-ends-in-exactly-one-newline:<part>`` against ``asm:part-ending-other:<part>``
 - 0 on the unchanged tree), not judged by itself.  Assembly routes are grouped by the text they wrote (unchanged tree: two texts
 - with / without the separator after the last paragraph); ``asm:<route>:<API>`` counters carry floors per (route x API).
+
+"mv" class (extension): Dsc / Changes SHAPED DOCUMENTS.  (1) STRUCTURED (multivalued) fields - Files, Checksums-Sha1 / -Sha256 /
+-Sha512 - are part of the documents, written in every LAYOUT: all items on continuation lines (the usual one), the same with a
+blank / tab left on the field line, ONE item on a continuation line, the FIRST item on the field line followed by further items
+on continuation lines (with / without a trailing blank on the field line), a single item on the field line (with / without
+trailing blanks); items separated by single blanks, tabs, several blanks.  For Deb822 such a field is ordinary text (judged as
+everywhere); for Dsc / Changes - constructor (single paragraphs, clearsigned AND plain) and iter_paragraphs (all documents) -
+the value is compared as the LIST OF ITEM LINES it was written with (item = its whitespace-separated tokens, cut to the columns
+of the class), whatever the class exposes: a list of record mappings and a single mapping (one item on the field line) are both
+normalised to the item list.  Every third Dsc / Changes form is then DUMPED by the class (rotating output routes) and read again
+through the same API: the item lists (and all other fields) must still be the model's; the dumped layout itself is never judged.
+(2) ordinary text fields (Changes, Description, ...) whose lines MENTION PGP armour words - 'see -----END PGP SIGNATURE-----
+below', an indented marker, a marker followed / preceded by text - in clearsigned and plain documents, every input form incl.
+the whole document as ONE str / bytes object, every API: only real armour lines (the marker alone, column 0) delimit anything.
+``mv:<layout>:<API>``, ``mv:redump:<layout>:<class>``, ``armorword:<position>:<plain|armour>``, ``armorword:<plain|armour>:<API>``
+counters carry floors; keys ``structured-item-lost/...``, ``structured-item-on-the-field-line-lost/...``,
+``structured-item-altered/...``, ``after-dump-and-re-parse:<kind>/...``.
 """
 import io
 import os
@@ -138,10 +155,30 @@ RULE = ('Model documents of 1..4 paragraphs x 1..6 fields: names over policy-val
         'routes are grouped by the text they wrote; every distinct text is re-read WHOLE (not cut into lines by the harness) through '
         'str, bytes, lists of lines with / without newlines, StringIO, BytesIO, a real binary file and a real text file with a '
         'declared encoding (each text through every second of these, alternating) x Deb822 / Dsc / Changes .iter_paragraphs and '
-        'compared with the model: same number of paragraphs, same fields, order, values.')
+        'compared with the model: same number of paragraphs, same fields, order, values.  "mv" class (72 quick / 5600 thorough random '
+        '+ two enumerated grids; every 9th ordinary random document is left out to pay for it): Dsc / Changes shaped documents of 1..3 '
+        'paragraphs - 1..5 text fields with realistic names (Format, Source, Changes, Description, Package-List ...) and the usual hostile '
+        'values + 1..3 STRUCTURED fields (Files with 3 or 5 tokens per item, Checksums-Sha1 / -Sha256 / -Sha512 with 3; names also in '
+        'other capitalisations) of 1..5 numbered items (digest, size, [section, priority,] file name; about every 8th item carries a '
+        'hostile token: ":" "K:" "#x" "-----BEGIN" non-ASCII ...) in the layouts cont / cont-blank-on-field-line / single-cont / '
+        'single-cont-blank-on-field-line / mixed (first item on the field line + continuation lines) / mixed-trailing-blank / single '
+        '/ single-trailing-blank, tokens separated by single blanks, tabs, several blanks, item lines with trailing blanks; every second '
+        'document has text fields whose first line or continuation lines MENTION armour words (12 first-line and 14 continuation-line '
+        'spellings: marker as the whole value, at the start / in the middle / at the end of a line, indented, dash-escaped, quoted, two '
+        'markers in one line).  Enumerated: every layout x every structured field x place in the paragraph (quick: one place, rotating) '
+        '+ two/three-paragraph documents per layout; every armour-word spelling as first line and as continuation line, first / between '
+        '/ last in a paragraph that also holds a structured field, + two-paragraph documents with the mention at the paragraph boundary.  '
+        'An "mv" document is built as a Deb822 paragraph (the structured value assigned as text), written through every output route, '
+        'and re-read through iter_paragraphs, Deb822, Dsc, Changes (constructor: single paragraphs, clearsigned AND plain), '
+        'Dsc.iter_paragraphs, Changes.iter_paragraphs; single paragraphs through two plain + two armoured cells holding all four '
+        'comments x leading-blank combinations, half of the in-memory containers per cell + the rotating real-file forms.  Deb822 / '
+        'iter_paragraphs are judged on the text value as everywhere; Dsc / Changes on the list of items (tokens cut to the columns of '
+        'the class: Dsc Files 3, Changes Files 5, Checksums-* 3); every third Dsc / Changes form is dumped by the class (dump() / '
+        'dump(fd) / dump(fd, text_mode) / str() / bytes(), rotating) and read again through the same API from a rotating in-memory '
+        'container, and compared with the same expectation.')
 ASSUMPTIONS = [
     'domain: field names are printable ASCII 33..126 without colon, not starting with "#" or "-", distinct case-insensitively '
-    'within a paragraph, and not one of the structured fields of Dsc/Changes (files, checksums-*)',
+    'within a paragraph, and - outside the "mv" class - not one of the structured fields of Dsc/Changes (files, checksums-*)',
     'domain: values contain no line-breaking controls other than the "\\n" that separates their lines (no CR, VT, FF, '
     'FS/GS/RS, NEL, U+2028/2029 - str.splitlines() would cut there) and no Unicode blanks other than space/tab at the edges '
     'of a first line; continuation lines start with space or tab and contain at least one non-blank character',
@@ -149,7 +186,7 @@ ASSUMPTIONS = [
     '(what _gpgre tolerates); no dash-escaping (names never start with "-")',
     'python-apt is not used (use_apt_pkg stays False); the encoding= argument of the library is left at its default '
     '(UTF-8) throughout; bytes-typed forms are always UTF-8; strict= is left at its default',
-    'Dsc/Changes are exercised on clearsigned text only',
+    'Dsc/Changes constructors are exercised on clearsigned text only, except in the "mv" class (plain text too)',
     'text file objects with a declared encoding are always opened with the encoding their bytes were written in (the '
     'decoded text equals the str form; a file opened with the WRONG encoding is outside the statement); a form is only '
     'run when the whole input text is encodable in that encoding (otherwise counted as skip:unencodable:<enc>); '
@@ -205,6 +242,39 @@ ASSUMPTIONS = [
     'known_findings.json); for an ASCII-incompatible declared encoding (utf-16) they are executed on a sample and only COUNTED '
     '(unjudged:gpg-api-iter_paragraphs-on-non-utf8-text-file:*), as for the constructor forms; Deb822.iter_paragraphs(f) is judged '
     'for every encoding',
+    '"mv" class, domain of a structured field value: at least one item; blank and tab are the only blanks in it (so that '
+    '"whitespace-separated" is unambiguous); an item = one non-blank line (the field line counts when it holds text); a '
+    'blank-only field line holds no item',
+    '"mv" class GUARD (under-demand), comparison of a structured field read by Dsc / Changes: the value is compared as the LIST OF '
+    'ITEMS, each item = its tokens CUT to the number of columns the file format gives the class (Dsc: Files 3, Checksums-* 3; '
+    'Changes: Files 5, Checksums-* 3 - a model-side table; established on the unchanged tree: surplus tokens are dropped, an item '
+    'with fewer tokens gives a shorter record); the exposed value is normalised first - a list of record mappings -> one item per '
+    'record (the record\'s values in the record\'s own order), a single mapping (what the unchanged tree gives for one item on '
+    'the field line) -> a one-item list, a str -> the tokens of its non-blank lines (compared uncut); which of the three a class '
+    'chooses is counted (mv:exposed-as:*), never judged and never floored; column NAMES are never looked at',
+    '"mv" class GUARD (under-demand), second round: an object is dumped again only when every item of every structured field has at '
+    'least the columns of the class (otherwise the class holds incomplete records and its dump() raises KeyError by design - counted '
+    'as mv:redump-not-applicable:*); the dumped LAYOUT is never judged (the unchanged tree normalises to continuation lines / one '
+    'item on the field line), only what the same API reads back from it; binary routes without encoding= are used only for objects '
+    'whose encoding is UTF-8 (an object read from a text file that declares an 8-bit encoding carries that encoding and writes it - '
+    'by design, established on the unchanged tree)',
+    '"mv" class GUARD (under-demand; a disagreement of the unchanged tree, counted as unjudged:gpg-api-comment-block-between-blank-'
+    'lines:*): a COMMENT-ONLY block that stands between blank lines (in front of the first paragraph after leading blank lines, or '
+    'between two paragraphs separated by several blank lines) makes Dsc / Changes - constructor from a sequence of lines / a file, '
+    'and iter_paragraphs from every form - stop there (empty object / remaining paragraphs lost), because the gpg-aware classes '
+    'split the payload at blank lines BEFORE comment lines are skipped; Deb822 and Deb822.iter_paragraphs read such documents '
+    'correctly and are judged on them in every other class.  "mv" documents therefore get exactly one blank line between '
+    'paragraphs and no comment lines among their leading blank lines (comment lines inside and directly around the paragraphs are '
+    'interleaved as everywhere)',
+    '"mv" class: Dsc / Changes (constructor and iter_paragraphs) on a text file that declares an ASCII-incompatible encoding '
+    '(utf-16) are not judged, as everywhere; armour is applied to single paragraphs only, as everywhere',
+    '"mv" class COST bound: single paragraphs run two plain and two armoured cells of the form grid (all four comments x '
+    'leading-blank combinations between them, alternating from case to case) and half of the in-memory containers per cell; '
+    'the second round runs for every third Dsc / Changes form',
+    'armour-word mentions: a line MENTIONS a marker when "-----BEGIN PGP <what>-----" / "-----END PGP <what>-----" occurs in the '
+    'text of a first line or of a continuation line; such a line never starts in column 0 with the marker (a first line follows '
+    '"Name: ", a continuation line starts with a blank), so it is ordinary value text by the statement; comment lines that quote '
+    'a marker ("#-----BEGIN ...") are interleaved as everywhere',
     '"asm" class COST bound: each distinct text of a document is re-read through every second input form (which half alternates '
     'with the text and the case; every text through all three APIs); mixed-* routes are named in a mechanism key only when no '
     'single-route assembly wrote the same text',
@@ -230,7 +300,8 @@ MUST_REACH = ['debian.deb822:Deb822._internal_parser',
               'debian.deb822:_gpg_multivalued.__init__',
               'debian.deb822:_AutoDecoder.decode']
 
-DOCS = {'quick': 2280, 'thorough': 152000}      # random documents (TOTAL over shards); + the enumerated grids
+DOCS = {'quick': 2450, 'thorough': 160000}      # random documents (TOTAL over shards); + the enumerated grids
+DOCS_SKIP = 9                                   # ... of which every DOCS_SKIP-th ORDINARY one is left out (pays for the "mv" class; "uni" documents all stay)
 UNI_EVERY = 5                                   # one random document in UNI_EVERY is a "uni" document
 
 FLOORS = {
@@ -514,7 +585,7 @@ MV_COLUMNS = {'Dsc': {'files': 3, 'checksums-sha1': 3, 'checksums-sha256': 3, 'c
               'Changes': {'files': 5, 'checksums-sha1': 3, 'checksums-sha256': 3, 'checksums-sha512': 3}}
 GPG_APIS = ('Dsc', 'Changes', 'Dsc.iter_paragraphs', 'Changes.iter_paragraphs')
 MV_APIS = ('iter_paragraphs', 'Deb822') + GPG_APIS
-MV_DOCS = {'quick': 80, 'thorough': 6000}       # random "mv" documents (TOTAL over shards); + the enumerated mv / armour-word grids
+MV_DOCS = {'quick': 72, 'thorough': 5600}       # random "mv" documents (TOTAL over shards); + the enumerated mv / armour-word grids
 MV_FIELDS = (('files', 3), ('files', 5), ('checksums-sha1', 3), ('checksums-sha256', 3), ('checksums-sha512', 3))
 MV_SPELLINGS = {'files': ('Files', 'Files', 'Files', 'files', 'FILES'),
                 'checksums-sha1': ('Checksums-Sha1', 'Checksums-Sha1', 'checksums-sha1', 'Checksums-SHA1'),
@@ -2623,6 +2694,8 @@ def cases(ctx):
             doc, profile = gen_uni_doc(ru)
             yield {'doc': doc, 'dump': DUMP_MODES[(i // UNI_EVERY + ctx.shard) % 4], 'deco': ru.getrandbits(32),
                    'uni': profile}
+            continue
+        if i % DOCS_SKIP == 1:
             continue
         yield {'doc': gen_doc(r), 'dump': DUMP_MODES[(i + ctx.shard) % 4], 'deco': r.getrandbits(32)}
     for i, doc in grid_docs():
